@@ -35,6 +35,9 @@ func (g *Gen) keyTerm(k Val, kt types.Type) *Term {
 	if k.K == VScalar && k.T != nil {
 		return k.T
 	}
+	if k.KeyT != nil {
+		return k.KeyT
+	}
 	lvs := leavesOf(kt)
 	var args []*Term
 	for _, lf := range lvs {
@@ -70,6 +73,7 @@ func (g *Gen) keyVal(st *State, t *Term, kt types.Type) Val {
 	_ = lvs
 	g.assume(Eq(App("vp_key!"+typeStr(kt), SInt, args...), t))
 	g.wfVal(st, v)
+	v.KeyT = t
 	return v
 }
 
@@ -364,12 +368,39 @@ func (g *Gen) runDeferred(st *State, d deferred) {
 		}
 		g.unsupported("deferred builtin %s", callee.Name())
 	default:
+		cb := g.callbackContract(cc.Value)
+		if cb == nil {
+			cb = g.resultCallback(cc.Value)
+		}
+		if cb != nil {
+			sig := cc.Signature()
+			g.applyContract(st, cb, cb.Key, g.calleeNames(nil, sig, cb), d.Args, sig, resTy, pos, false)
+			return
+		}
 		g.Abstracted["deferred call through function value (heap havocked)"] = true
 		g.havocAll(st, "deferred dynamic call")
 	}
 }
 
 func (g *Gen) goInstr(st *State, x *ssa.Go) {
+	// No interleaving semantics: if the spawned function has a contract, its frame is
+	// applied at the spawn point (exact when it modifies nothing the caller tracks);
+	// otherwise everything is havocked there.
+	if f, ok := x.Call.Value.(*ssa.Function); ok {
+		key := FuncKey(f)
+		if f.Origin() != nil {
+			key = FuncKey(f.Origin())
+		}
+		if c := g.P.ContractFor(key); c != nil {
+			var args []Val
+			for _, a := range x.Call.Args {
+				args = append(args, g.val(st, a))
+			}
+			g.Abstracted["go statement at "+g.pos(x.Pos())+": the spawned function's contract frame is applied at the spawn point; later interference is not modelled"] = true
+			g.applyContract(st, c, key, g.calleeNames(f, f.Signature, c), args, f.Signature, f.Signature.Results(), x.Pos(), f.Blocks != nil)
+			return
+		}
+	}
 	g.Abstracted["go statement at "+g.pos(x.Pos())+": goroutine body not executed here; heap havocked at the spawn point"] = true
 	g.havocAll(st, "go")
 }
